@@ -59,6 +59,16 @@ Theorem C07_fold_commutative_perm_on : forall A B (step : B -> A -> B) (l l' : l
 Proof. exact @fold_commutative_perm_on. Qed.
 Print Assumptions C07_fold_commutative_perm_on.
 
+(* arg-max accumulation (urlchecker.go CheckFetchURL after its repair): the entry with the
+   largest measure among the matching ones, when the measure is injective on them
+   (prefixes of one string have pairwise different lengths) *)
+Theorem C07_argmax_perm : forall A (p : A -> bool) (m : A -> N) (l l' : list A),
+  NoDup l ->
+  (forall x y, In x l -> In y l -> p x = true -> p y = true -> m x = m y -> x = y) ->
+  Permutation l l' -> range_argmax p m l = range_argmax p m l'.
+Proof. exact @argmax_perm. Qed.
+Print Assumptions C07_argmax_perm.
+
 (* existence tests, universal tests, lookups, set insertion, map copy *)
 Theorem C07_exists_perm : forall A (p : A -> bool) (l l' : list A),
   Permutation l l' -> range_exists p l = range_exists p l'.
@@ -91,7 +101,9 @@ Theorem C07_output_order_dependent_refuted :
 Proof. exact output_order_dependent_refuted. Qed.
 Print Assumptions C07_output_order_dependent_refuted.
 
-(* finding urlchecker.go: "the first matching entry wins" is order dependent ... *)
+(* the three defects repaired in /repo (37e2b2f, 37d1fd9, 7d8fe86) had the following shapes; the
+   statements stay as non-vacuity results: these shapes ARE order dependent.
+   urlchecker.go before the repair: "the first matching entry wins" is order dependent ... *)
 Theorem C07_first_match_refuted : ~ first_match_full.
 Proof. exact first_match_refuted. Qed.
 Print Assumptions C07_first_match_refuted.
@@ -103,19 +115,20 @@ Theorem C07_first_match_partial : forall A (p : A -> bool) (l l' : list A),
 Proof. exact @first_match_partial. Qed.
 Print Assumptions C07_first_match_partial.
 
-(* finding changes.go: sorting by a key with ties keeps the collection order *)
+(* changes.go before the repair: sorting by a key with ties keeps the collection order
+   (now the key (date, line, file) is injective: C07_sort_by_perm applies) *)
 Theorem C07_sort_ties_refuted : ~ sort_ties_full.
 Proof. exact sort_ties_refuted. Qed.
 Print Assumptions C07_sort_ties_refuted.
 
 (* the static tie: every `range` over a map that gen/c07.go found in /repo is
    covered by the hand-classified audit (class 1..5, none unresolved), and
-   exactly the three recorded findings are of class 5 *)
+   none is of class 5 (order dependent and reaching the output) *)
 Theorem C07_audit_classified :
   forallb class_known maprange_classes = true
   /\ N.of_nat (length maprange_classes) = maprange_count
   /\ maprange_unresolved = 0
-  /\ count_class 5 maprange_classes = 3.
+  /\ count_class 5 maprange_classes = 0.
 Proof. exact audit_classified. Qed.
 Print Assumptions C07_audit_classified.
 
@@ -126,5 +139,7 @@ Example C07_witness :
   keys_sorted ex_map = [[97]; [97; 98]; [98]; [255]] /\ keys_sorted ex_map' = keys_sorted ex_map
   /\ keys ex_map <> keys ex_map'
   /\ for_each_sorted ex_map ex_map' = [([97], Some 0); ([97; 98], Some 1); ([98], Some 2); ([255], Some 3)]
-  /\ range_first (fun _ => true) ex_map <> range_first (fun _ => true) ex_map'.
+  /\ range_first (fun _ => true) ex_map <> range_first (fun _ => true) ex_map'
+  /\ range_argmax (fun kv => negb (snd kv =? 3)) snd ex_map = Some ([98], 2)
+  /\ range_argmax (fun kv => negb (snd kv =? 3)) snd ex_map' = Some ([98], 2).
 Proof. repeat split; try (vm_compute; reflexivity); vm_compute; discriminate. Qed.
